@@ -39,7 +39,7 @@ func (m *Metrics15ShortcutPlanner) GetQuery(ctx *shared.PlannerContext, col sql.
 			sql.Ge(sql.NewRawObject("samples.timestamp_ns"),
 				sql.NewIntVal(ctx.From.UnixNano()/15000000000*15000000000)),
 			sql.Lt(sql.NewRawObject("samples.timestamp_ns"),
-				sql.NewIntVal((ctx.To.UnixNano()/15000000000)*15000000000)),
+				sql.NewIntVal(ctx.To.UnixNano())),
 			GetTypes(ctx)).
 		GroupBy(sql.NewRawObject("fingerprint"), sql.NewRawObject("timestamp_ns"))
 }
